@@ -24,7 +24,8 @@ from . import c19_tables
 from . import c19_client as cl
 
 PROPERTY = 'C19'
-LEAN_TARGETS = ['CpProofs.C19', 'CpProofs.C19Md5', 'CpProofs.C19Sound', 'CpProofs.C19Wire', 'drv_c19']
+LEAN_TARGETS = ['CpProofs.C19', 'CpProofs.C19Md5', 'CpProofs.C19Sound', 'CpProofs.C19Wire', 'CpProofs.C19Nonce',
+                'drv_c19']
 DRIVER = 'drv_c19'
 THEOREMS = [
     'CpProofs.C19.split1_iff',
@@ -101,6 +102,10 @@ THEOREMS = [
     'CpProofs.C19.wwwAuthenticate_defaults',
     'CpProofs.C19.wwwAuthenticate_error_iff',
     'CpProofs.C19.parseAuth_not_digest',
+    # round 2: int() reads back the server's own timestamp text; answering the server's own challenge
+    'CpProofs.C19.pyInt_showInt',
+    'CpProofs.C19.issued_nonce_valid_fresh',
+    'CpProofs.C19.digest_complete_issued',
 ]
 LEVEL = 'proof'
 TECHNIQUE = ('Lean 4 proof over a statement-by-statement model of Request.process_headers (one value), basic_auth and '
@@ -174,6 +179,7 @@ PYCODEC = {'utf8': 'utf-8', 'latin1': 'latin-1', 'ascii': 'ascii'}
 
 
 CALL_TIMEOUT = 20       # seconds one request may take inside the code under test before it counts as a hang
+MAX_HANGS = 3           # after that many hangs the run stops generating (each one is reported with its input)
 
 
 def tables(ctx):
@@ -221,7 +227,7 @@ def parse_model(line):
     if f[0] == 'grant':
         return ['grant', unT(f[1])]
     if f[0] == '401':
-        return ['401', unT(f[1])]
+        return ['401', canon_chal(unT(f[1]))]
     if f[0] == '400':
         return ['400']
     if f[0] == '500':
@@ -385,11 +391,22 @@ class World:
         self.auth_basic = auth_basic
         cherrypy.config.update({'environment': 'test_suite', 'log.screen': False})
         self.clock = Clock()
-        self.saved_time = auth_digest.time
-        auth_digest.time = self.clock
+        # logical clock: `time.time` of the time module is replaced for the duration of every call into the code under
+        # test (whatever name the modules import the module under), and module-level names bound to the function itself
+        # (`from time import time`) are rebound once
+        import time as _time
+        self._time = _time
+        self.real_time = _time.time
+        self.rebound = []
+        for m in (auth_digest, auth_basic):
+            for k, v in list(vars(m).items()):
+                if v is self.real_time:
+                    setattr(m, k, self.clock.time)
+                    self.rebound.append((m, k, v))
         self.apps = {}
         self.probe = {}
         self.tmp = None
+        self.hangs = 0
         probe = self.probe
         self.cov = Coverage([auth_basic, auth_digest])
         self.cov_on = self.cov.start()
@@ -421,9 +438,23 @@ class World:
         self.see_header = see_header
         self.see_error = see_error
 
+    def clocked(self):
+        world = self
+
+        class _C:
+            def __enter__(self):
+                world._time.time = world.clock.time
+
+            def __exit__(self, *a):
+                world._time.time = world.real_time
+                return False
+        return _C()
+
     def close(self):
         self.cov.stop()
-        self.auth_digest.time = self.saved_time
+        self._time.time = self.real_time
+        for m, k, v in self.rebound:
+            setattr(m, k, v)
         if self.tmp is not None:
             self.tmp.cleanup()
             self.tmp = None
@@ -514,7 +545,7 @@ class World:
         app = self.app(cfg)
         raised = None
         try:
-            with Watchdog(CALL_TIMEOUT):
+            with Watchdog(CALL_TIMEOUT), self.clocked():
                 r = app(env, start_response)
                 try:
                     for _ in r:
@@ -524,6 +555,7 @@ class World:
                         r.close()
         except Hang:
             raised = 'hang(>%ds)' % CALL_TIMEOUT
+            self.hangs += 1
             self.apps.clear()           # whatever state the interrupted request left behind is not reused
         except (KeyboardInterrupt, common.HarnessError):
             raise
@@ -573,6 +605,15 @@ class World:
         return ch[1].get('nonce')
 
 
+def canon_chal(text):
+    """a challenge as (scheme, sorted parameters) when it is a `name="value"` / `name=token` list (order and spacing
+    of the parameters are not observable differences); the text itself otherwise"""
+    p = cl.parse_challenge(text)
+    if p is None:
+        return text
+    return [p[0], sorted(p[1].items())]
+
+
 def canon_real(obs):
     if obs['status'] is None or obs.get('raised'):
         return ['no-response', obs.get('raised') or 'start_response never called']
@@ -580,7 +621,7 @@ def canon_real(obs):
         return ['grant', obs['login']] if obs['status'] == 200 else ['ran-but-%d' % obs['status'], obs['login']]
     if obs['status'] == 401:
         c = obs['challenge']
-        return ['401', cl.undo_rfc2047(c[0]) if len(c) == 1 else repr(c)]
+        return ['401', canon_chal(cl.undo_rfc2047(c[0])) if len(c) == 1 else repr(c)]
     if obs['status'] == 400:
         return ['400']
     if obs['status'] >= 500:
@@ -721,6 +762,8 @@ def check_cases(ctx, world, cases, compare=True):
     lines, idx = [], []
     results = []
     for i, case in enumerate(cases):
+        if world.hangs >= MAX_HANGS:
+            break
         obs = run_one(world, case)
         results.append(obs)
         cfg = case['cfg']
@@ -847,7 +890,7 @@ def direct_api(ctx, world):
         stale = rng.random() < 0.5
         world.clock.now = now + rng.choice([0.0, 0.5, 0.999])
         try:
-            with Watchdog(CALL_TIMEOUT):
+            with Watchdog(CALL_TIMEOUT), world.clocked():
                 r = ad.www_authenticate(realm, key, algorithm=alg, qop=qop, stale=stale, accept_charset=cs)
             got = 'ok ' + T(r) if isinstance(r, str) else 'returned ' + type(r).__name__
         except ValueError:
@@ -887,9 +930,11 @@ def direct_api(ctx, world):
     out = ctx.model(lines)
     if out is None:
         return
+    def canon(x):
+        return ['ok', canon_chal(unT(x[3:]))] if x.startswith('ok ') else x
     for c, r, m in zip(cases, real, out):
         ctx.compared()
-        if r != m:
+        if canon(r) != canon(m):
             ctx.disagree(c, r if not r.startswith('ok ') else ['ok', unT(r[3:])],
                          m if not m.startswith('ok ') else ['ok', unT(m[3:])],
                          '%s called directly differs from the model' % c['kind'].split(':')[1])
@@ -916,7 +961,7 @@ def _chunk(args):
     world = World()
     try:
         done = 0
-        while done < n:
+        while done < n and world.hangs < MAX_HANGS:
             cases = cl.gen_batch(rng, world)
             check_cases(sub, world, cases, compare=compare)
             done += len(cases)
@@ -978,10 +1023,12 @@ def run(ctx):
         if ctx.quick():
             n = 4000
             done = 0
-            while done < n:
+            while done < n and world.hangs < MAX_HANGS:
                 cases = cl.gen_batch(ctx.rng, world)
                 check_cases(ctx, world, cases)
                 done += len(cases)
+            if world.hangs >= MAX_HANGS:
+                ctx.note('stopped after %d requests that did not return within %d s' % (world.hangs, CALL_TIMEOUT))
     finally:
         world.close()
         if world.cov_on:
